@@ -489,7 +489,8 @@ class Node(object):
             for index in range(len(node1.children)):
                 child1 = node1.children[index]
                 child2 = node2.children[index]
-                return Node.is_equal(child1, child2)
+                if not Node.is_equal(child1, child2):
+                    return False
         return True
 
     @property
